@@ -40,7 +40,12 @@ func isolateStdout() {
 		return
 	}
 	if os.Getenv("FOXCHECK_KEEP_STDERR") == "" {
-		syscall.Dup2(int(devnull.Fd()), 2)
+		// stderr (fox's default logger, but also a crash of the harness itself) goes to a log file
+		if lf, err := os.OpenFile(filepath.Join(verifDir, ".build", "stderr.log"), os.O_CREATE|os.O_WRONLY|os.O_TRUNC, 0o644); err == nil {
+			syscall.Dup2(int(lf.Fd()), 2)
+		} else {
+			syscall.Dup2(int(devnull.Fd()), 2)
+		}
 	}
 	syscall.Dup2(int(devnull.Fd()), 1)
 	out = keep
@@ -212,6 +217,29 @@ func (r *Run) violation(key string, replay map[string]any) {
 	if pr, ok := replay["prescribed"]; ok {
 		outf("  prescribed: %v\n  obtained:   %v\n", jsonStr(pr), jsonStr(replay["obtained"]))
 	}
+}
+
+// guard runs f; a panic raised by the code under test (anything that is not a harness toolFailure) is a
+// violation: no property allows fox to panic on the inputs the replays use.
+func (r *Run) guard(what string, detail func() map[string]any, f func()) {
+	defer func() {
+		if p := recover(); p != nil {
+			if _, ok := p.(toolFailure); ok {
+				panic(p)
+			}
+			buf := make([]byte, 4096)
+			buf = buf[:runtime.Stack(buf, false)]
+			d := map[string]any{}
+			if detail != nil {
+				d = detail()
+			}
+			d["prescribed"] = "no panic"
+			d["obtained"] = fmt.Sprint(p)
+			d["stack"] = string(buf)
+			r.violation("panic during "+what+": "+fmt.Sprint(p), d)
+		}
+	}()
+	f()
 }
 
 // tooManyViolations lets long replays stop early once the verdict is settled.
